@@ -3,6 +3,7 @@ package main
 import (
 	"fmt"
 	"os"
+	"sort"
 	"time"
 
 	"github.com/sarchlab/akita/v4/sim"
@@ -24,7 +25,7 @@ import (
 // unit completions, the EvaluateInternalInst pass, issues, memory responses,
 // newly mapped work-groups, then the snapshot.
 type Ev struct {
-	E string `json:"e"` // map done eval issue rsp chk; JSON only: t (cycle start), sdone (a scheduler-handled instruction completed)
+	E string `json:"e"` // map done eval issue rsp chk; JSON only: t (cycle start), sdone (a scheduler-handled instruction completed), mfin (no transaction of a memory instruction is in flight any more)
 	W int    `json:"w,omitempty"`
 	G int    `json:"g,omitempty"` // map: work-group; eval: send budget
 	N int    `json:"n,omitempty"` // map: number of wavefronts
@@ -80,9 +81,9 @@ func launch(d *driver.Driver, c Case, ws []uint32, timeoutMs int, stop func()) (
 	go func() {
 		ctx := d.Init()
 		co := codeObject(ws, ldsBytesFor(c))
-		gIn := d.AllocateMemory(ctx, uint64(4*n))
+		gIn := d.AllocateMemory(ctx, uint64(4*(n+64)))
 		gOut := d.AllocateMemory(ctx, uint64(4*n))
-		d.MemCopyH2D(ctx, gIn, inputData(n))
+		d.MemCopyH2D(ctx, gIn, inputData(n+64))
 		d.MemCopyH2D(ctx, gOut, make([]uint32, n))
 		args := kernArgs{In: gIn, Out: gOut}
 		d.LaunchKernel(ctx, co, [3]uint32{uint32(n), 1, 1}, [3]uint16{uint16(64 * c.NWf), 1, 1}, &args)
@@ -121,6 +122,7 @@ type recorder struct {
 	stopped bool
 	paused  bool
 	lastChk *Ev
+	pendFin map[string][2]int // memory instructions whose counters were decremented: ID -> wavefront, kind
 	lastInt int
 
 	pendingMaps []Ev
@@ -178,6 +180,7 @@ func (r *recorder) EndTask(t tracing.Task) {
 	if x, ok := r.instOf[t.ID]; ok {
 		delete(r.instOf, t.ID)
 		r.rsps = append(r.rsps, Ev{E: "rsp", W: x[0], K: []string{"s", "f"}[x[1]]})
+		r.pendFin[t.ID] = x
 	}
 }
 
@@ -254,6 +257,29 @@ func (r *recorder) Func(ctx sim.HookCtx) {
 	evs = append(evs, r.rsps...)
 	evs = append(evs, r.pendingMaps...)
 	r.issues, r.rsps, r.pendingMaps, r.sends = nil, nil, nil, 0
+	// a memory instruction is really finished when none of its transactions
+	// is in flight any more (monitor only)
+	if len(r.pendFin) > 0 {
+		busy := map[string]bool{}
+		for _, info := range r.cu.InFlightVectorMemAccess {
+			busy[info.Inst.ID] = true
+		}
+		for _, info := range r.cu.InFlightScalarMemAccess {
+			busy[info.Inst.ID] = true
+		}
+		ids := make([]string, 0, len(r.pendFin))
+		for id := range r.pendFin {
+			ids = append(ids, id)
+		}
+		sort.Strings(ids)
+		for _, id := range ids {
+			if !busy[id] {
+				x := r.pendFin[id]
+				evs = append(evs, Ev{E: "mfin", W: x[0], K: []string{"s", "f"}[x[1]]})
+				delete(r.pendFin, id)
+			}
+		}
+	}
 	chk := Ev{E: "chk", T: r.cycle, Int: []int{}, Bar: []int{}}
 	for i, wf := range r.wfs {
 		chk.St = append(chk.St, int(wf.State))
@@ -339,7 +365,10 @@ func runTiming(c Case, ws []uint32, timeoutMs int) *TimingObs {
 		return obs
 	}
 	r := &recorder{cu: theCU, ids: map[*wavefront.Wavefront]int{}, wgIdx: map[*wavefront.WorkGroup]int{},
-		mapReq: map[string]int{}, instOf: map[string][2]int{}, obs: obs}
+		mapReq: map[string]int{}, instOf: map[string][2]int{}, pendFin: map[string][2]int{}, obs: obs}
+	if c.Pen > 0 {
+		theCU.VerifSetMaxCoalescingPenalty(c.Pen)
+	}
 	tracing.CollectTrace(theCU, r)
 	s.GetEngine().AcceptHook(r)
 	theCU.ToACE.AcceptHook(portHook{r})
